@@ -66,6 +66,23 @@ Proof.
 Qed.
 Print Assumptions C17_no_abort_validated.
 
+(* every parameter hypothesis used by the theorems of C01-C05, C07, C09, C10 and C17 (fee within the minimum amount, positive batch sizes,
+   valid mint parameters) follows from the verdicts of the generated validators of the four modules; the order-book counts are uint64 in Go,
+   hence the non-negativity premise *)
+Theorem C17_accepted_parameters : forall P qc MP,
+  K_betParams_Validate (gbp_of P qc) = true -> K_orderbookParams_Validate (gobp_of P) = true -> K_houseParams_Validate (ghp_of P) = true ->
+  K_Params_Validate (gparams_of MP) = true -> 0 <= pr_ob_batch P -> 0 <= pr_ob_maxpart P ->
+  pr_bet_fee P <= pr_bet_min P /\ 0 <= pr_bet_fee P /\ 0 < pr_bet_batch P /\ 0 < pr_ob_batch P /\ 0 < pr_ob_maxpart P /\
+  1 < pr_h_mindep P /\ 0 <= pr_h_fee P /\ mparams_valid MP = true.
+Proof.
+  intros P qc MP HB HO HH HM N1 N2. apply bet_Validate_accepts in HB. rewrite gen_mint_Validate in HM.
+  rewrite gen_ob_Validate in HO. rewrite gen_house_Validate in HH.
+  apply andb_true_iff in HO. destruct HO as [O1 O2]. apply andb_true_iff in HH. destruct HH as [H1 H2].
+  apply negb_true_iff, Z.eqb_neq in O1, O2. apply Z.ltb_lt in H1. apply Z.leb_le in H2.
+  repeat split; try assumption; lia.
+Qed.
+Print Assumptions C17_accepted_parameters.
+
 (* non-vacuity: the chain's default bet and mint parameters are accepted by the generated validators *)
 Example C17_defaults_accepted :
   K_betParams_Validate {| G_betParams_BatchSettlementCount := 1000; G_betParams_MaxBetByUidQueryCount := 10;
